@@ -4,6 +4,8 @@
 From Coq Require Import String Ascii List NArith Bool Permutation.
 Import ListNotations.
 Require Import Verif.Foreign.NameEscape Verif.Foreign.NameEscapeProps Verif.Foreign.Tables.
+Require Import Verif.Foreign.ImportSpec Verif.Foreign.ImportProps Verif.Foreign.ImportRun Verif.Foreign.ImportTheorems.
+Require Import Verif.Foreign.XsdSpec Verif.Foreign.XsdProps.
 
 (* --- safe_name_valid_and_faithful, over ALL byte strings, for the replacement table of the current source --- *)
 Theorem C11_safe_name_is_a_Name : forall s, name_re (safe_name_cur s) = true.
@@ -67,3 +69,125 @@ Theorem C11_required_rule_is_whole_list :
      "return false"]%string.
 Proof. split; [rewrite required_rule_ok; reflexivity|exact contains_shape_ok]. Qed.
 Print Assumptions C11_required_rule_is_whole_list.
+
+(* ---------------- import_complete / import_sound / import_deterministic: OpenAPI 2, flat subset ----------------
+   import_c = Foreign/ImportSpec.import_oas2 with the name functions of NameEscape and the regenerated tables: the
+   projection (types, fields: primitive kind + bit width, ref target, opt, seq) the importer's output compiles to. *)
+
+(* every object definition has its tuple and every property its field, with the kind of its type, optional exactly
+   when it is NOT in `required` (whatever the length of that list), a sequence exactly when it is an array *)
+Theorem C11_import_complete : forall doc n props required p,
+  doc_ok safe_name_cur is_builtin_c tname_c map_type_c doc -> NoDup (map fst (import_c doc)) ->
+  In (n, OObject props required) doc -> NoDup (map (fkey fname_c unesc_c) props) -> In p props ->
+  exists fs, lookup (tkey safe_name_cur tname_c unesc_c n) (import_c doc) = Some (TTuple fs)
+             /\ lookup (fkey fname_c unesc_c p) fs
+                = Some (expected_field safe_name_cur unesc_c map_type_c native_c required p).
+Proof. exact import_complete_current. Qed.
+Print Assumptions C11_import_complete.
+
+Theorem C11_import_optionality_and_arrayness : forall required p,
+  f_opt (expected_field safe_name_cur unesc_c map_type_c native_c required p) = negb (bmem (op_name p) required)
+  /\ f_seq (expected_field safe_name_cur unesc_c map_type_c native_c required p) = op_array p.
+Proof. exact expected_opt_seq. Qed.
+Print Assumptions C11_import_optionality_and_arrayness.
+
+(* the primitive kinds: the regenerated type table + the compiler's native type words *)
+Theorem C11_import_primitive_kinds : forallb prim_kind_ok prim_expectations = true.
+Proof. exact prim_kinds_ok. Qed.
+Print Assumptions C11_import_primitive_kinds.
+
+(* nothing else appears: every compiled type comes from a definition, every field of a tuple from a property *)
+Theorem C11_import_sound : forall doc k sh,
+  doc_ok safe_name_cur is_builtin_c tname_c map_type_c doc -> In (k, sh) (import_c doc) ->
+  exists n b, In (n, b) doc
+    /\ (k, sh) = ctype tname_c fname_c unesc_c native_c (load safe_name_cur is_builtin_c tname_c map_type_c [] (safe_name_cur n) b)
+    /\ forall fs, sh = TTuple fs ->
+         exists props required, b = OObject props required /\ k = tkey safe_name_cur tname_c unesc_c n
+           /\ forall fk f, In (fk, f) fs ->
+                exists p, In p props /\ fk = fkey fname_c unesc_c p
+                          /\ f = expected_field safe_name_cur unesc_c map_type_c native_c required p.
+Proof. exact import_sound_current. Qed.
+Print Assumptions C11_import_sound.
+
+(* the output (as a LIST: the order of the text included) is a function of the document: ranging over the
+   definitions map and over each properties map in another order changes nothing *)
+Theorem C11_import_deterministic : forall doc doc1 doc',
+  doc_ok safe_name_cur is_builtin_c tname_c map_type_c doc -> doc_ok safe_name_cur is_builtin_c tname_c map_type_c doc' ->
+  Forall2 same_def doc doc1 -> Permutation doc1 doc' -> import_c doc = import_c doc'.
+Proof. exact import_deterministic_current. Qed.
+Print Assumptions C11_import_deterministic.
+
+(* ... and it is NOT one without doc_ok: an array definition whose items are a $ref to a definition named like a
+   builtin-type prefix comes out differently depending on which of the two Go visits first (known finding) *)
+Theorem C11_import_deterministic_refuted :
+  let d1 := (of_string "Integer", OObject [mkp (of_string "id") (FPrim "string" "") false] []) in
+  let d2 := (of_string "Order", OArray (FRef (of_string "Integer"))) in
+  import_c [d1; d2] <> import_c [d2; d1].
+Proof. exact import_deterministic_refuted. Qed.
+Print Assumptions C11_import_deterministic_refuted.
+
+(* completeness without doc_ok is false: a definition named like a builtin type is silently dropped *)
+Theorem C11_import_complete_refuted_builtin_named :
+  exists n b, import_c [(n, b)] = [] /\ b = OObject [mkp (of_string "id") (FPrim "string" "") false] [].
+Proof. exact import_complete_refuted. Qed.
+Print Assumptions C11_import_complete_refuted_builtin_named.
+
+(* the decisions the model transliterates are the ones in the CURRENT source *)
+Theorem C11_import_decisions_current :
+  List.length Verif.Gen.ForeignTables.convert_shape = 4%nat
+  /\ nth_error Verif.Gen.ForeignTables.convert_shape 3 = Some "o.types.Sort()"%string
+  /\ nth_error Verif.Gen.ForeignTables.array_rule 4
+     = Some "if _, ok := t.(*Array); !ok && ref.Value.Type.Is(openapi3.TypeArray) { return &Array{Items: t} }"%string
+  /\ nth_error Verif.Gen.ForeignTables.object_tail 0
+     = Some "if len(obj.Properties) == 0 { return NewStringAlias(name), nil }"%string
+  /\ List.length Verif.Gen.ForeignTables.find_shape = 3%nat
+  /\ List.length Verif.Gen.ForeignTables.sort_props_shape = 6%nat.
+Proof.
+  rewrite convert_shape_ok, array_rule_ok, object_tail_ok, find_shape_ok, sort_props_shape_ok.
+  repeat split; reflexivity.
+Qed.
+Print Assumptions C11_import_decisions_current.
+
+(* ---------------- XSD (Foreign/XsdSpec.v: the importer's decisions on what the XML schema library parsed) -------- *)
+Theorem C11_xsd_import_complete : forall doc (n:bs) base elems attrs,
+  NoDup (map fst (import_xsd_c doc)) -> In (n, XComplex base elems attrs) doc ->
+  bare_extension base elems attrs = false ->
+  NoDup (map fst (fields_of tname_c fname_c unesc_c xprim_word_c native_c is_complex_c doc base elems attrs)) ->
+  lookup (unesc_c (tname_c n)) (import_xsd_c doc)
+    = Some (TTuple (fields_of tname_c fname_c unesc_c xprim_word_c native_c is_complex_c doc base elems attrs))
+  /\ (forall e, In e (all_elems (List.length doc) doc base elems) ->
+        lookup (fst (elem_field tname_c fname_c unesc_c xprim_word_c native_c is_complex_c doc e))
+               (fields_of tname_c fname_c unesc_c xprim_word_c native_c is_complex_c doc base elems attrs)
+        = Some (snd (elem_field tname_c fname_c unesc_c xprim_word_c native_c is_complex_c doc e)))
+  /\ (forall a, In a attrs ->
+        lookup (fst (attr_field fname_c unesc_c xprim_word_c native_c a))
+               (fields_of tname_c fname_c unesc_c xprim_word_c native_c is_complex_c doc base elems attrs)
+        = Some (snd (attr_field fname_c unesc_c xprim_word_c native_c a))).
+Proof. exact (xsd_import_complete tname_c fname_c unesc_c xprim_word_c native_c is_complex_c). Qed.
+Print Assumptions C11_xsd_import_complete.
+
+Theorem C11_xsd_import_sound : forall doc base elems attrs fk f,
+  bare_extension base elems attrs = false ->
+  In (fk, f) (fields_of tname_c fname_c unesc_c xprim_word_c native_c is_complex_c doc base elems attrs) ->
+  (exists e, In e (all_elems (List.length doc) doc base elems)
+             /\ (fk, f) = elem_field tname_c fname_c unesc_c xprim_word_c native_c is_complex_c doc e)
+  \/ (exists a, In a attrs /\ (fk, f) = attr_field fname_c unesc_c xprim_word_c native_c a).
+Proof. exact (xsd_import_sound tname_c fname_c unesc_c xprim_word_c native_c is_complex_c). Qed.
+Print Assumptions C11_xsd_import_sound.
+
+(* known findings, refuting "every attribute / optionality is kept" for XSD *)
+Theorem C11_xsd_inherited_attribute_refuted :
+  match lookup (of_string "Derived") (import_xsd_c xsd_witness) with
+  | Some (TTuple fs) => lookup (of_string "id") fs = None /\ lookup (of_string "name") fs <> None
+  | _ => False
+  end.
+Proof. exact xsd_inherited_attribute_refuted. Qed.
+Print Assumptions C11_xsd_inherited_attribute_refuted.
+
+Theorem C11_xsd_optional_array_refuted :
+  match lookup (of_string "Derived") (import_xsd_c xsd_witness) with
+  | Some (TTuple fs) => option_map (fun f => (f_opt f, f_seq f)) (lookup (of_string "kids") fs) = Some (false, true)
+  | _ => False
+  end.
+Proof. exact xsd_optional_array_refuted. Qed.
+Print Assumptions C11_xsd_optional_array_refuted.
